@@ -476,6 +476,16 @@ func c10Run(c *core.Ctx, i int) {
 		runGenProgram(c, prog, nil, true, i == 100)
 		return
 	}
+	switch (i - grid) % 12 {
+	case 3:
+		c.Cover("family", "shadowing-in-every-block-kind")
+		runGenProgram(c, shadowProgram(c.Rng), nil, true, false)
+		return
+	case 7:
+		c.Cover("family", "recursion-inside-loops-and-break")
+		runGenProgram(c, loopStateProgram(c.Rng), nil, true, false)
+		return
+	}
 	prog := cfProgram(c, 2+c.Rng.Intn(3))
 	runGenProgram(c, prog, nil, true, i < grid+2)
 }
